@@ -38,3 +38,24 @@ Definition ex_opts : opts := mkOpts 0%Z [1] false true true 50 [].
 
 Definition ex_final : pstate := fst (simulate ex_cfg ex_opts (blank ex_cfg)).
 Definition ex_trace : list obs := snd (simulate ex_cfg ex_opts (blank ex_cfg)).
+
+(* the same diamond with finish-to-start edges only (C12) *)
+Definition fs_inputs (t : nat) : list (nat * dep) :=
+  match t with 1 => [(0, FS)] | 2 => [(0, FS)] | 3 => [(1, FS); (2, FS)] | _ => [] end.
+Definition fs_outputs (t : nat) : list (nat * dep) :=
+  match t with 0 => [(1, FS); (2, FS)] | 1 => [(3, FS)] | 2 => [(3, FS)] | _ => [] end.
+Definition ex_fs_cfg : cfg :=
+  mkCfg 4 2 0 0 1 0
+    (fun t => t) (fun t => match t with 0 => 2%Q | 1 => 1%Q | 2 => 3%Q | _ => 1%Q end)
+    (fun _ => 0%Q) (fun _ => 1%Q) (fun _ => false) (fun _ => false) (fun _ => None)
+    fs_inputs fs_outputs (fun _ => [0]) (fun _ => []) (fun _ => None) (fun _ => None)
+    (fun _ => (-1)%Z) (fun _ => 0%Z) (fun _ => 0%Z) (fun _ => (-1)%Z)
+    (fun _ => 0) (fun _ => [(0, 1%Q); (1, 1%Q); (2, 1%Q); (3, 1%Q)]) (fun _ => [])
+    (fun w => match w with 0 => 3%Q | _ => 5%Q end) (fun _ => false)
+    (fun _ => []) (fun _ => None)
+    (fun g => match g with 0 => [0; 1] | _ => [] end)
+    (fun _ => 0) (fun _ => 0) (fun _ => []) (fun _ => 0%Q) (fun _ => false) (fun _ => [])
+    (fun _ => []) (fun _ => 0%Q) (fun _ => [])
+    (fun _ => 0%Q) (fun _ => []) (fun _ => []) (fun _ => []).
+Definition ex_fs_opts : opts := mkOpts 0%Z [] false true true 50 [].
+Definition ex_fs_init : pstate := initialize ex_fs_cfg ex_fs_opts (blank ex_fs_cfg).
